@@ -208,6 +208,10 @@ pub fn run_index(a: &WorkerArgs, env: &GenEnv, i: u64) -> Value {
 }
 
 pub fn worker_main(a: WorkerArgs) {
+    // never outlive the parent
+    unsafe {
+        libc::prctl(libc::PR_SET_PDEATHSIG, libc::SIGKILL);
+    }
     install_panic_hook();
     install_signal_handlers();
     let env = GenEnv::new(a.tier);
@@ -239,6 +243,9 @@ pub fn worker_main(a: WorkerArgs) {
 
 /// Reads one check (JSON) per line on stdin, prints `V <class|ok> <at> <json detail>`.
 pub fn judge_server() {
+    unsafe {
+        libc::prctl(libc::PR_SET_PDEATHSIG, libc::SIGKILL);
+    }
     install_panic_hook();
     install_signal_handlers();
     let stdin = std::io::stdin();
